@@ -502,5 +502,47 @@ class SegmentationOutcome(Spec):
         return [("canary", z3.BoolVal(len(self._req) == 1))]
 
 
+class DesireOffsets(Spec):
+    """Share._desire_offsets: as long as the offset table is unknown, the version word -- and, once the version is known,
+    the offset table -- is data the share cannot do without (gotta_gotta_have_it), whether or not the server tolerates
+    read overrun; that is what lets _do_loop abandon a share too short to hold its own header instead of asking again"""
+    file = "allmydata/immutable/downloader/share.py"
+    qualname = "Share._desire_offsets"
+    cross_check = 0
+    raises = ()
+    canary_case = {"overrun": True, "version": None}
+
+    def inputs(self):
+        return {"overrun": ChoiceK([False, True]), "version": ChoiceK([None, 1, 2])}
+
+    def all_cases(self):
+        return [{"overrun": o, "version": v} for o in (False, True) for v in (None, 1, 2)]
+
+    def config(self):
+        return {"overrides": dict(LOG)}
+
+    def run(self, I, a):
+        import struct
+        self._adds = {"want": [], "need": [], "gotta": []}
+
+        def spans(nm):
+            return stub(nm, add=lambda I_, a_, k_: self._adds[nm].append((a_[0], a_[1])))
+        received = stub("received", get=lambda I_, a_, k_: (struct.pack(">L", a["version"]) if (a["version"] is not None and (a_[0], a_[1]) == (0, 4)) else None))
+        sh = SObj(self.module().Share, {"_overrun_ok": a["overrun"], "_received": received})
+        I.call_value(self.target(I), [sh, (spans("want"), spans("need"), spans("gotta"))], {})
+        return sh
+
+    def ensures(self, I, a, out):
+        g = self._adds["gotta"]
+        table = {1: (0x0c, 6 * 4), 2: (0x14, 6 * 8)}.get(a["version"])
+        return [("the-version-word-is-indispensable", z3.BoolVal((0, 4) in g)),
+                ("once-the-version-is-known-the-offset-table-is-indispensable", z3.BoolVal(table is None or table in g)),
+                ("nothing-else-is-declared-indispensable", z3.BoolVal(set(g) <= {(0, 4), table})),
+                ("an-overrun-tolerant-server-is-asked-for-the-first-KiB-speculatively", z3.BoolVal((not a["overrun"]) or (0, 1024) in self._adds["want"]))]
+
+    def canary(self, I, a, out):
+        return [("canary", z3.BoolVal(len(self._adds["gotta"]) == 0))]
+
+
 def contracts(tier):
-    return [ProcessBlocks(), FetchFailed(), SegmentationOutcome()]
+    return [ProcessBlocks(), FetchFailed(), SegmentationOutcome(), DesireOffsets()]
